@@ -14,7 +14,8 @@ pub struct Finding {
 }
 
 pub fn load() -> Vec<Finding> {
-    let path = "/verif/known_findings.json";
+    let path = format!("{}/known_findings.json", std::env::var("VERIF_ROOT").unwrap_or_else(|_| "/verif".to_string()));
+    let path = path.as_str();
     let txt = match std::fs::read_to_string(path) {
         Ok(t) => t,
         Err(_) => return Vec::new(),
